@@ -220,7 +220,7 @@ func main() {
 			"promptness is judged in scheduler steps: blocked nodes are released only after Send returned, so a Send that needs node progress after cancellation deadlocks in the model",
 			"<=3 pipelines x 3 nodes, preemption bound 2 (quick) / 3 (thorough)",
 		},
-		QuickBudget:    150 * time.Second,
+		QuickBudget:    300 * time.Second,
 		ThoroughBudget: 40 * time.Minute,
 	})
 }
